@@ -49,6 +49,7 @@ FLOWS = {
     "gen3d": _unit_rate(_mat([[0.3, 0.9, -0.4], [-0.2, -0.5, 0.7], [0.6, 0.1, 0.2]])),
     "trace": _unit_rate(_mat([[0.8, 0.5, 0.0], [-0.3, 0.1, 0.4], [0.2, -0.6, -0.3]])),
     "rot": _mat([[0, -1, 0], [1, 0, 0], [0, 0, 0]]),  # pure vorticity: zero strain rate
+    "ss_int": _mat([[0, 0, 1], [0, 0, 0], [0, 0, 0]]),  # handed to the library as an INTEGER-typed array
 }
 PN_CLASSES = {0: (1.5, 3.5), 1: (1.0, 2.0), 2: (2.0, 5.0)}  # (p, n) classes of par.x[2]
 DT = 0.2  # time span of one update call at unit strain rate (strain increment 0.2)
@@ -73,6 +74,8 @@ def flow_callables(fl, rate=1.0):
         M = FLOWS[base] * rate
         return (lambda t, x: M * g(t * rate, np.asarray(x) * 1.0)), (lambda t: XVEL * t * rate)
     L = FLOWS[fl] * rate
+    if fl.endswith("_int") and rate == 1.0:
+        L = L.astype(int)   # hand-written integer velocity gradient
     return (lambda t, x: L), (lambda t: np.zeros(3))
 
 
@@ -183,7 +186,7 @@ def snapshot_measures(o, f, n):
 class World:
     """The real objects a behaviour acts on, plus what the client would hold."""
 
-    def __init__(self, scratch_dir, n_override=None, rate=1.0, dt=None):
+    def __init__(self, scratch_dir, n_override=None, rate=1.0, dt=None, F0=None):
         import pydrex
 
         self.pydrex = pydrex
@@ -197,6 +200,7 @@ class World:
         self.fid_registry = {}  # sha -> canonical id of a fractions array
         self.fids = {}  # mineral -> list of canonical ids parallel to .fractions
         self.rate = rate
+        self.F0 = np.eye(3) if F0 is None else np.asarray(F0, dtype=float)   # deformation gradient the client starts from
         self.dt = (dt if dt is not None else DT) / rate
         self.n_override = n_override
         self.events = []
@@ -255,8 +259,8 @@ class World:
         m = pd.Mineral(phase=c["phase"], fabric=c["fabric"], regime=c["regime"], n_grains=n, seed=act["seed"], **kw)
         name = act["m"]
         self.minerals[name] = m
-        self.F[name] = np.eye(3)
-        self.Fexp[name] = np.eye(3)
+        self.F[name] = self.F0.copy()
+        self.Fexp[name] = self.F0.copy()
         self.t[name] = 0.0
         self.strain[name] = 0.0
         self.nupd[name] = 0
@@ -430,7 +434,9 @@ class World:
         out = {}
         for f, recs in self.project_disk().items():
             if recs:
-                out[f] = {k: dict(meta=r["meta"], n=r["n"], odig=[h["o"] for h in r["hist"]], fdig=[h["f"] for h in r["hist"]]) for k, r in recs.items()}
+                out[f] = {k: (dict(meta=r["meta"], n=r["n"], odig=[h["o"] for h in r["hist"]], fdig=[h["f"] for h in r["hist"]])
+                              if "__unreadable__" not in r else dict(meta=[-1, -1, -1], n=-1, odig=[], fdig=[]))   # orphan / incomplete entry
+                          for k, r in recs.items()}
         return out
 
     def event(self, tid, act, err, lens_before):
@@ -590,9 +596,9 @@ def budget(n, strain):
     return 5e-3 + 1e-3 * (n + 2 * strain)
 
 
-def replay_behaviour(beh, scratch_dir, comparator, tid, events, n_override=None, rate=1.0, fcheck=True, dt=None):
+def replay_behaviour(beh, scratch_dir, comparator, tid, events, n_override=None, rate=1.0, fcheck=True, dt=None, F0=None):
     """Run one behaviour (list of projected spec states, first = initial) on real objects."""
-    w = World(scratch_dir, n_override=n_override, rate=rate, dt=dt)
+    w = World(scratch_dir, n_override=n_override, rate=rate, dt=dt, F0=F0)
     # pre-built minerals: replay their construction, compare once against the initial state
     pre = beh[0].get("pre") or []
     for k, a in enumerate(pre):
@@ -686,7 +692,7 @@ TRACE_CLAUSES = {
 }
 
 
-def run_behaviours(chk, prop, behs, *, n_override=None, rate=1.0, fcheck=True, sig_extra=None, dt_of=None):
+def run_behaviours(chk, prop, behs, *, n_override=None, rate=1.0, fcheck=True, sig_extra=None, dt_of=None, F0_of=None):
     """Replay behaviours, validate the recorded calls with the trace spec, and report the
     mismatches / rejections whose clause belongs to `prop`.  Returns (events, comparator)."""
     from harness.common import scratch
@@ -697,7 +703,7 @@ def run_behaviours(chk, prop, behs, *, n_override=None, rate=1.0, fcheck=True, s
         for tid, b in enumerate(behs):
             sub = d / f"b{tid}"
             sub.mkdir()
-            replay_behaviour(b, sub, comp, tid, events, n_override=n_override, rate=rate, fcheck=fcheck, dt=dt_of(tid) if dt_of else None)
+            replay_behaviour(b, sub, comp, tid, events, n_override=n_override, rate=rate, fcheck=fcheck, dt=dt_of(tid) if dt_of else None, F0=F0_of(tid) if F0_of else None)
             chk.count(("beh", json.dumps([s["act"] for s in b[1:]], sort_keys=True)))
             import shutil
 
